@@ -168,7 +168,9 @@ PROPS = {
     ),
     "C12": dict(
         runs=plan([dict(cfg="tsan", parts=20, timeout=1800), dict(cfg="plain", tag="ro", defs="-DVP_ROALLOC", parts=16)],
-                  [dict(cfg="tsan", parts=300, timeout=7200), dict(cfg="plain", tag="ro", defs="-DVP_ROALLOC", parts=200)]),
+                  [dict(cfg="tsan", parts=300, timeout=7200), dict(cfg="plain", tag="ro", defs="-DVP_ROALLOC", parts=200),
+                   dict(cfg="plain", parts=48, tier="quick", mode="helgrind", timeout=7200,
+                        wrapper=["valgrind", "--tool=helgrind", "-q", "--error-exitcode=97"])]),
         rule=("case = one concurrent workload in a short process (phase cold module+table API | warmed-up *_simple API, "
               "two dimensions, T threads, rounds, repetition): every thread runs a random permutation of all entry "
               "points of the phase on private data against the shared modules/tables; distinct by descriptor hash; "
